@@ -70,6 +70,14 @@ func init() {
 			for _, con := range []string{"none", "SET", "MULTISET", "replace:none", "replace:SET"} {
 				pairs(e, "c06live:"+con, "live/"+con, lv, lv)
 			}
+			// ... and only one of the two is live (the other freshly parsed), also where the live value was built
+			// by hunks whose paths lead through array positions into the containers below
+			lv6 := c04LiveDocs()
+			for _, mode := range liveModes {
+				for _, con := range []string{"none", "replace:none", "leaf:none", "leaf:SETKEYS:id"} {
+					pairs(e, liveKind("c06", mode, con, "none"), "live-"+mode+"/"+con, lv6, lv6)
+				}
+			}
 			// an option that changes nothing for these documents (integers, precision 0.001) must not change the diff
 			pairs(e, "c06prec", "A5x123/PRECISION:0.001", Arr(5, "123"), Arr(5, "123"))
 			pairs(e, "c06prec", "A2cont/PRECISION:0.001", Arr(2, "cont"), Arr(2, "cont"))
@@ -181,6 +189,17 @@ func uniqueAlignment(xs, ys []string, l int) (pairs [][2]int, ok bool) {
 // checkLevels walks a and b in parallel and checks minimality at every array level that is
 // reachable by a path valid in both documents.
 func checkLevels(a, b V, prefix []ref.PE, hunks []ref.Hunk, st *c06stats) string {
+	// Two containers of the same kind at a place reached through object keys only (or at the
+	// root) are recursed into: no hunk may replace the one by the other wholesale. (Places
+	// reached through an array index are judged by the level logic below, where the LCS may
+	// legitimately move elements.)
+	if sameKindContainer(a, b) && (len(prefix) == 0 || prefix[len(prefix)-1].Kind == "key") {
+		for _, h := range hunks {
+			if peEq(h.Path, prefix) && len(h.Remove) == 1 && len(h.Add) == 1 && sameKindContainer(h.Remove[0], h.Add[0]) {
+				return fmt.Sprintf("a hunk at %s replaces a whole container by a container of the same kind instead of recursing into it", ref.PathJSON(prefix))
+			}
+		}
+	}
 	switch x := a.(type) {
 	case map[string]interface{}:
 		y, ok := b.(map[string]interface{})
@@ -309,6 +328,9 @@ func runC06(c *engine.Case) engine.Result {
 			if l, ok := impl.Live(c.B, con); ok && l.Json() == nb.Json() {
 				nb = l
 			}
+		}
+		if la, lb, _, _, _, ok := liveOperands(c.Kind, c.A, c.B); ok {
+			na, nb = la, lb
 		}
 		d := na.Diff(nb)
 		if c.Kind == "c06prec" {
